@@ -561,3 +561,38 @@ func ReplayFile(t *testing.T, w World) {
 	fmt.Printf("NOT-REPRODUCED property=%s fingerprint=%s (violations seen: %d)\n", rp.Property, rp.Fingerprint, len(res.Violations))
 	os.Exit(0)
 }
+
+// Determinism is the body of TestDeterminism in every world package: every run index is
+// executed twice in this process and the digests are written out so that processes started
+// with other GOMAXPROCS values (and run orders) can be compared byte for byte.
+func Determinism(t *testing.T, w World) {
+	prop := os.Getenv("VERIF_PROP")
+	out := os.Getenv("VERIF_OUT")
+	if prop == "" || out == "" {
+		t.Skip("VERIF_PROP / VERIF_OUT not set")
+	}
+	seed := envU64("VERIF_SEED", 1)
+	n := envInt("VERIF_MAX_RUNS", 200)
+	reverse := os.Getenv("VERIF_DET_REVERSE") != ""
+	tier := os.Getenv("VERIF_TIER")
+	if tier == "" {
+		tier = "quick"
+	}
+	digests := make([]string, n)
+	for k := 0; k < n; k++ {
+		idx := k
+		if reverse {
+			idx = n - 1 - k
+		}
+		_, r1 := RunOne(t, w, prop, tier, seed, idx, false)
+		_, r2 := RunOne(t, w, prop, tier, seed, idx, false)
+		if r1.Digest != r2.Digest || r1.Steps != r2.Steps || len(r1.Trace) != len(r2.Trace) {
+			fmt.Printf("NONDETERMINISTIC run %d: digest %x/%x steps %d/%d trace %d/%d\n", idx, r1.Digest, r2.Digest, r1.Steps, r2.Steps, len(r1.Trace), len(r2.Trace))
+			t.Fail()
+		}
+		digests[idx] = fmt.Sprintf("%d %x %d %d %s", idx, r1.Digest, r1.Steps, len(r1.Violations), r1.Stop)
+	}
+	if err := os.WriteFile(out, []byte(strings.Join(digests, "\n")+"\n"), 0o644); err != nil {
+		t.Fatal(err)
+	}
+}
